@@ -481,6 +481,38 @@ func jsonAttacks(doc []byte, rng *rand.Rand, lv textLevel, emit func(tatk)) {
 	hostileNums := []string{"-1", "0", "1", "255", "256", "65535", "65536", "4294967295", "4294967296", "9223372036854775807", "9223372036854775808", "18446744073709551615", "18446744073709551616",
 		"1e400", "1e19", "1.5", "-0", "1e-400", "1E2", strings.Repeat("9", 5000), "0." + strings.Repeat("0", 5000) + "1", "340282366920938463463374607431768211456"}
 
+	// omission (not sampled): every object emptied and every key of every object dropped, so that each required
+	// field is missing once
+	omit := 64
+	if lv.light {
+		omit = 8
+	} else if lv.jsonNodes >= 500 {
+		omit = 1000
+	}
+	for i, nobj := 0, 0; i < total && nobj < omit; i++ {
+		idx := 0
+		nd, ok := nodeAt(root, i, &idx)
+		m, isObj := nd.(map[string]any)
+		if !ok || !isObj {
+			continue
+		}
+		nobj++
+		if len(m) > 0 {
+			out("jsonomit", "object-emptied", i, func(any) any { return map[string]any{} })
+		}
+		for _, k := range sortedKeys(m) {
+			k := k
+			out("jsonomit", "key-dropped", i, func(n any) any {
+				o := map[string]any{}
+				for kk, vv := range n.(map[string]any) {
+					if kk != k {
+						o[kk] = vv
+					}
+				}
+				return o
+			})
+		}
+	}
 	for ti, tg := range targets {
 		idx := 0
 		node, ok := nodeAt(root, tg, &idx)
